@@ -362,6 +362,8 @@ def _decode_any(fmt, text):
         return [(m.sid, m.toks, model.canon_mt(m.root)) for m in codecs.decode_tigerxml(text)]
     if fmt == 'brackets':
         return [(t, r) for r, t in codecs.decode_brackets(text)]
+    if fmt == 'discobrackets':
+        return [(t, r) for r, t in codecs.decode_discobrackets(text)]
     if fmt == 'lines':
         return [l for l in text.split('\n') if l]
     raise KeyError(fmt)
@@ -401,11 +403,13 @@ def _api_interleaved_readers(src, dest):
             treeoutput.export(t, f, boyd_split_numbering=True)
 
 
-EMPTY_SENTENCE_OP = 4        # plain export -> export conversion also gets a sentence without tokens
+EMPTY_SENTENCE_OP = 5        # plain export -> export conversion also gets a sentence without tokens
 CONCAT_OPS = [
     ('export-gzcat', ['transform', '{src}', '{dest}'], 'export', 'dest'),
     ('discobrackets', ['transform', '{src}', '{dest}', '--src-format', 'discobrackets', '--dest-format', 'tigerxml',
                        '--src-opts', 'disco_reordered'], 'tigerxml-noid', 'dest'),
+    ('discobrackets', ['transform', '{src}', '{dest}', '--src-format', 'discobrackets', '--dest-format', 'discobrackets',
+                       '--src-opts', 'disco_reordered'], 'discobrackets', 'dest'),       # the writer shows absolute token positions
     ('export', _api_list_then_transform, 'export', 'dest'),
     ('export', _api_interleaved_readers, 'export', 'dest'),
     ('export', ['transform', '{src}', '{dest}'], 'export', 'dest'),
@@ -413,6 +417,10 @@ CONCAT_OPS = [
                 'boyd_split', 'raising'], 'tigerxml', 'dest'),
     ('brackets', ['transform', '{src}', '{dest}', '--src-format', 'brackets', '--dest-format', 'brackets',
                   '--trans', 'negra_mark_heads', 'binarize'], 'brackets-noid', 'dest'),
+    ('export', ['transform', '{src}', '{dest}', '--trans', 'filter_by_length', '--params', 'filteroperator:lt', 'filtervalue:3'],
+     'export', 'dest'),                 # some sentences are dropped: the others must not notice
+    ('export', ['transform', '{src}', '{dest}', '--trans', 'filter_by_length', '--params', 'filteroperator:lt', 'filtervalue:3',
+                '--split', 'rest'], 'export', 'dest.0'),
     ('export', ['transitions', '{src}', '{dest}', 'gap', '--transform', 'negra_mark_heads', 'binarize'], 'lines', 'dest'),
     ('export', ['grammar', '{src}', '{dest}', 'treebank'], 'pmcfg', 'dest.pmcfg'),
     ('export', ['grammar', '{src}', '{dest}', 'leftright', '--markov', 'v:1', 'h:1'], 'pmcfg', 'dest.pmcfg'),
@@ -476,7 +484,7 @@ def _interpret(kind, text):
     from .c09 import decode_pmcfg, decode_lex
     from .c16 import parse_gap_report
     import re
-    if kind in ('export', 'tigerxml', 'lines'):
+    if kind in ('export', 'tigerxml', 'lines', 'discobrackets'):
         return _decode_any(kind, text)
     if kind == 'brackets-noid':
         return _decode_any('brackets', text)
